@@ -68,6 +68,8 @@ def width(n):
 
 
 class Tr:
+    base = False
+
     def __init__(self, enums):
         self.enums = enums
 
@@ -255,6 +257,10 @@ class Tr:
                             raise NoFit("rejection body")
                         out.append(".rej (%s) (%d)" % (self.expr(cond), code))
                         continue
+                    if self.base and self.pure(cond) and all(t.get("kind") == "CallExpr" and re.fullmatch(r"\w+_(init|update|final)", callee(t) or "")
+                                                           for t in tb):
+                        out.append(".tailCalls")
+                        continue
                     if not self.pure(cond):
                         raise NoFit("guard reads the context")
                     g = self.expr(cond)
@@ -264,6 +270,9 @@ class Tr:
                 if k == "ReturnStmt":
                     r = strip(kids(s)[0])
                     if r.get("kind") == "CallExpr" and re.fullmatch(r"\w+_ctx_mgr_resubmit", callee(r) or ""):
+                        out.append(".tailRet")
+                        continue
+                    if self.base and r.get("kind") == "DeclRefExpr" and r["referencedDecl"]["name"] == "ctx":
                         out.append(".tailRet")
                         continue
                     raise NoFit("return")
@@ -289,12 +298,23 @@ def ctx_files(repo):
     return fs
 
 
+def base_files(repo):
+    fs = []
+    for p in sorted(glob.glob(os.path.join(repo, "*_mb", "*_ctx_base.c"))):
+        m = re.search(r"^(_\w+_ctx_mgr_submit_base)\(", open(p).read(), flags=re.M)
+        if m:
+            fs.append((os.path.relpath(p, repo), m.group(1)))
+    return fs
+
+
 def main(argv=None):
     argv = argv or sys.argv[1:]
     repo, lean = argv[0], argv[1]
     tr = Tr(enum_table(repo))
     rows = []
-    for rel, fn in ctx_files(repo):
+    nsimd = len(ctx_files(repo))
+    for rel, fn in ctx_files(repo) + base_files(repo):
+        tr.base = fn.endswith("_base")
         try:
             body = None
             for d in clang_json(repo, rel, fn):
@@ -313,7 +333,8 @@ def main(argv=None):
     for k, (rel, fn, prog) in enumerate(rows):
         names.append("s%d" % k)
         out.append("def s%d : Src := { file := \"%s\", fn := \"%s\", prog := [\n  %s] }" % (k, rel, fn, ",\n  ".join(prog)))
-    out += ["", "def all : List Src := [%s]" % ", ".join(names), "", "end IsalVerif.Gen.SubmitPrefix"]
+    out += ["", "def all : List Src := [%s]" % ", ".join(names[:nsimd]), "",
+            "def allBase : List Src := [%s]" % ", ".join(names[nsimd:]), "", "end IsalVerif.Gen.SubmitPrefix"]
     dst = os.path.join(lean, "IsalVerif", "Gen", "SubmitPrefix.lean")
     txt = "\n".join(out) + "\n"
     if not os.path.exists(dst) or open(dst).read() != txt:
